@@ -174,6 +174,7 @@ type hworld struct {
 	secret                       map[string]string // package -> "ok" | "none"
 	reject                       *verifsim.Key
 	hist                         []string
+	excluded                     bool // contents were steered away from an open known finding
 	limit                        int
 	tookOver, refusals, upgrades int
 }
@@ -598,6 +599,23 @@ func setupHistory(t *rapid.T, fail func(string, ...any)) *hworld {
 				}
 			}
 		}
+		if knownOpen() && fl.Runtime && h.secret["alpha"] == "ok" && hasWebhookConfig(objs) {
+			// Open finding inactive-webhook-config-name: revisions of alpha get deactivated,
+			// and with a webhook CA their webhook configurations are deployed under the
+			// package-derived name. Keep them out of this package (beta, whose revision
+			// stays active, and alpha without a CA still ship them).
+			kept := objs[:0:0]
+			for _, o := range objs {
+				if o.Kind != "VWC" && o.Kind != "MWC" {
+					kept = append(kept, o)
+				}
+			}
+			if len(kept) == 0 {
+				kept = append(kept, objSpec{Kind: "CRD", Name: namePool["CRD"][0], Variant: 1})
+			}
+			objs = kept
+			h.excluded = true
+		}
 		h.addContent("alpha", name, objs)
 	}
 	// beta: one revision that may claim objects alpha also ships.
@@ -732,6 +750,9 @@ func TestVerifC16Histories(t *testing.T) {
 	rapid.Check(t, func(t *rapid.T) {
 		rec.Eval()
 		h := newHistory(t, func(f string, a ...any) { t.Helper(); t.Fatalf(f, a...) })
+		if h.excluded {
+			rec.Excluded()
+		}
 		first := "alpha-r1"
 		if rapid.IntRange(0, 4).Draw(t, "manual") == 0 {
 			h.createRevision(first, false)
